@@ -1,1 +1,165 @@
-/-! # C04 — property theorems (stub: not built yet) -/
+import KM.Lemmas.Token
+/-! # C04 — signed tokens are unforgeable and never accepted outside their purpose
+
+Property theorems only. The model (`KM.Token`) transcribes the consumers of `cmd/keymasterd`;
+`honourable` is the property's own predicate. Tables under `KM.Gen.C04` are regenerated from the
+source tree on every run. -/
+namespace KM.Token
+open KM.Gen.C04
+
+/-- the two facts about the environment the theorems need: the issuer URL is not empty (it always
+starts with `https://`) and the clock reads a time after 1970 -/
+structure Sane (x : Ctx) : Prop where
+  issuer : x.dep.issuer ≠ []
+  clock : 0 ≤ x.now.sec
+
+/-! ### the regenerated tables are the ones the model was transcribed from -/
+
+/-- the comparisons the model's consumers make, as a table -/
+def expectAuthValues (want : Rhs) : List Cmp :=
+  [⟨.issuer, .ne, .issuer⟩, ⟨.tokenType, .ne, want⟩, ⟨.audienceLen, .lt, .int 1⟩,
+   ⟨.audience0, .ne, .issuer⟩, ⟨.notBefore, .gt, .nowUnix⟩]
+
+def guarded : UpgradeGuard → Bool
+  | .checkAuthBefore | .commonTOTPBefore => true
+  | _ => false
+
+/-- **Sites.** What the source says today is what the model assumes:
+the five kind literals (pairwise distinct, none empty), the kind strings the callers of
+`getAuthInfoFromJWT` demand, the comparison set of every consumer (a dropped or altered comparison
+changes the table), the JSON key / Go type of every claims-struct field the decoders read, what
+`getAuthInfoFromJWT` copies into its result, and that every `updateAuthCookieAuthlevel` call site
+sits behind `checkAuth`. -/
+theorem c04_sites :
+    [sessionType, cliType, storageType, codeType, accessType].Pairwise (· ≠ ·) ∧
+    [sessionType, cliType, storageType, codeType, accessType].all (· ≠ []) = true ∧
+    want_getAuthInfoFromAuthJWT = sessionType ∧ want_VerifyAuthTokenHandler = cliType ∧
+    want_SendAuthDocumentHandler = cliType ∧
+    cmps_getAuthInfoFromJWT = expectAuthValues (.param "tokenType".toList) ∧
+    cmps_updateAuthJWTWithNewAuthLevel = expectAuthValues (.lit sessionType) ∧
+    cmps_getStorageDataFromStorageStringDataJWT = expectAuthValues (.lit storageType) ∧
+    cmps_GetSigned = [⟨.subject, .ne, .param "username".toList⟩, ⟨.dataType, .ne, .param "dataType".toList⟩,
+                      ⟨.expiration, .lt, .nowUnix⟩] ∧
+    cmps_checkAuth = [⟨.expiresAt, .beforeNow, .none⟩, ⟨.authType, .maskZero, .param "requiredAuthType".toList⟩] ∧
+    cmps_VerifyAuthTokenHandler = [⟨.expiresAt, .untilNeg, .none⟩] ∧
+    cmps_SendAuthDocumentHandler = [⟨.authUsername, .ne, .field "authData.Username".toList⟩, ⟨.expiresAt, .untilNeg, .none⟩] ∧
+    cmps_idpOpenIDCTokenHandler = [⟨.subject, .ne, .loc "clientID".toList⟩, ⟨.expiration, .lt, .nowUnix⟩,
+                                   ⟨.redirectURI, .ne, .form "redirect_uri".toList⟩, ⟨.typ, .ne, .lit codeType⟩] ∧
+    cmps_idpOpenIDCUserinfoHandler = [⟨.expiration, .lt, .nowUnix⟩, ⟨.typ, .ne, .lit accessType⟩,
+                                      ⟨.issuer, .ne, .issuer⟩, ⟨.audienceHas, .missingIfNonEmpty, .userinfoURL⟩] ∧
+    authInfoAssignments = [("AuthType".toList, "AuthType".toList, "id".toList),
+                           ("ExpiresAt".toList, "Expiration".toList, "timeUnix".toList),
+                           ("IssuedAt".toList, "IssuedAt".toList, "timeUnix".toList),
+                           ("Username".toList, "Subject".toList, "id".toList)] ∧
+    upgradeCallers.all (fun s => guarded s.2 || s.1 == "internalTOTPAuthHandler") = true ∧
+    internalTOTPCallers.all (fun s => guarded s.2) = true ∧ internalTOTPCallers ≠ [] := by
+  decide
+
+/-- JSON key and Go type of the struct fields each decoder of the model reads -/
+def layout (l : List StructField) : List (Str × GoTy) := l.map (fun f => (f.json, f.ty))
+
+/-- **Sites (layout).** The claims structs carry exactly the JSON keys / types the model's decoders
+(`typedAuth`, `typedStorage`, `typedCode`, `typedAccess`) and `Field.json` assume, and the fields
+written with `omitempty` are the ones `emitAuth` / `emitStorage` / `emitCode` / `emitAccess` omit. -/
+theorem c04_sites_layout :
+    layout struct_authInfoJWT =
+      [(Field.iss.json, .str), (Field.sub.json, .str), (Field.aud.json, .strs), (Field.exp.json, .int),
+       (Field.nbf.json, .int), (Field.iat.json, .int), (Field.tokenType.json, .str), (Field.authType.json, .int)] ∧
+    layout struct_storageStringDataJWT =
+      [(Field.iss.json, .str), (Field.sub.json, .str), (Field.aud.json, .strs), (Field.nbf.json, .int),
+       (Field.exp.json, .int), (Field.iat.json, .int), (Field.tokenType.json, .str), (Field.dataType.json, .int),
+       (Field.data.json, .str)] ∧
+    layout struct_keymasterdCodeToken =
+      [(Field.iss.json, .str), (Field.sub.json, .str), (Field.iat.json, .int), (Field.exp.json, .int),
+       (Field.aud.json, .strs), (Field.username.json, .str), (Field.authLevel.json, .int), (Field.authExp.json, .int),
+       (Field.nonce.json, .str), (Field.redirectUri.json, .str), (Field.accessAudience.json, .strs),
+       (Field.scope.json, .str), (Field.typ.json, .str), (Field.jti.json, .str),
+       (Field.protectedDataKey.json, .str), (Field.protectedData.json, .str)] ∧
+    layout struct_bearerAccessToken =
+      [(Field.iss.json, .str), (Field.aud.json, .strs), (Field.username.json, .str), (Field.scope.json, .str),
+       (Field.exp.json, .int), (Field.iat.json, .int), (Field.typ.json, .str)] ∧
+    layout struct_openIDConnectIDToken =
+      [(Field.iss.json, .str), (Field.sub.json, .str), (Field.aud.json, .strs), (Field.exp.json, .int),
+       (Field.iat.json, .int), (Field.authTime.json, .int), (Field.nonce.json, .str)] ∧
+    (struct_authInfoJWT.filter (·.omitempty)).map (·.json) =
+      [Field.iss.json, Field.sub.json, Field.aud.json, Field.exp.json, Field.nbf.json, Field.iat.json] ∧
+    (struct_storageStringDataJWT.filter (·.omitempty)).map (·.json) =
+      [Field.iss.json, Field.sub.json, Field.aud.json, Field.nbf.json, Field.iat.json] ∧
+    (struct_keymasterdCodeToken.filter (·.omitempty)).map (·.json) =
+      [Field.accessAudience.json, Field.protectedDataKey.json, Field.protectedData.json] ∧
+    (struct_bearerAccessToken.filter (·.omitempty)).map (·.json) = [Field.aud.json] ∧
+    (struct_openIDConnectIDToken.filter (·.omitempty)).map (·.json) = [Field.authTime.json, Field.nonce.json] := by
+  decide
+
+/-! ### soundness: whatever a consumer honours satisfies the property's predicate -/
+
+theorem want_session : want_getAuthInfoFromAuthJWT = sessionType := by decide
+theorem want_cliV : want_VerifyAuthTokenHandler = cliType := by decide
+theorem want_cliS : want_SendAuthDocumentHandler = cliType := by decide
+
+/-- the shape shared by the three `authInfoJWT`/storage value tests -/
+theorem auth_core {d : Deployment} {now : Clock} {want : Str} {a : Artefact}
+    (hv : verifies d a = true) (hb : authValuesBad d now want a.claims = false) :
+    signedByDeployment d a = true ∧ gStr a.claims .tokenType = want ∧ gInt a.claims .nbf ≤ now.sec ∧
+    namesThisServer d a.claims = true := by
+  obtain ⟨h1, h2, h3, h4⟩ := authValues_ok hb
+  refine ⟨verifies_signed hv, h2, h4, ?_⟩
+  have hm := head_mem_contains h3
+  simp only [List.contains_iff_mem] at hm
+  simp [namesThisServer, h1, hm]
+
+/-- **Soundness.** For every consumer, context and artefact (any claims object, any header
+algorithm, any signature): if the consumer honours the artefact then it was signed by one of the
+deployment's keys under that key's algorithm, says it is of the kind the consumer is for, is inside
+its validity window, names this server as issuer and audience (session, CLI, storage) and is bound
+to the request (storage: user and type looked up; code: the authenticated client; CLI hand-off: the
+logged-in user). -/
+theorem c04_sound (c : Consumer) (x : Ctx) (a : Artefact) (hs : Sane x) (h : accepts c x a = true) :
+    honourable c x a = true := by
+  have hc := hs.clock
+  cases c with
+  | session =>
+    obtain ⟨info, hi⟩ := isOk_iff.mp h
+    obtain ⟨hg, he, _⟩ := acceptSession_ok hi
+    obtain ⟨hv, _, hb, rfl⟩ := getAuthInfo_ok hg
+    obtain ⟨k1, k2, k3, k4⟩ := auth_core hv hb
+    have := not_expired_ge (gInt_range _ _) hc he
+    simp [honourable, Consumer.purpose, hasMarker, inWindow, k1, k2, k3, k4, want_session, this]
+  | upgrade =>
+    obtain ⟨cl, hi⟩ := isOk_iff.mp h
+    obtain ⟨hv, _, hb, _⟩ := acceptUpgrade_ok hi
+    obtain ⟨k1, k2, k3, k4⟩ := auth_core hv hb
+    simp [honourable, Consumer.purpose, hasMarker, k1, k2, k3, k4]
+  | cliVerify =>
+    obtain ⟨info, hi⟩ := isOk_iff.mp h
+    obtain ⟨hg, he⟩ := acceptCliVerify_ok hi
+    obtain ⟨hv, _, hb, rfl⟩ := getAuthInfo_ok hg
+    obtain ⟨k1, k2, k3, k4⟩ := auth_core hv hb
+    have := not_expired_ge (gInt_range _ _) hc he
+    simp [honourable, Consumer.purpose, hasMarker, inWindow, k1, k2, k3, k4, want_cliV, this]
+  | cliSend =>
+    obtain ⟨info, hi⟩ := isOk_iff.mp h
+    obtain ⟨hg, hu, he⟩ := acceptCliSend_ok hi
+    obtain ⟨hv, _, hb, rfl⟩ := getAuthInfo_ok hg
+    obtain ⟨k1, k2, k3, k4⟩ := auth_core hv hb
+    have := not_expired_ge (gInt_range _ _) hc he
+    simp at hu
+    simp [honourable, Consumer.purpose, hasMarker, inWindow, k1, k2, k3, k4, want_cliS, this, hu]
+  | storage =>
+    obtain ⟨data, hi⟩ := isOk_iff.mp h
+    obtain ⟨_, hsv, h1, h2, h3, _⟩ := acceptStorage_ok hi
+    obtain ⟨hv, _, hb⟩ := storageVerify_ok hsv
+    obtain ⟨k1, k2, k3, k4⟩ := auth_core hv hb
+    simp at h1 h2 h3 k1 k2 k3 k4
+    simp [honourable, Consumer.purpose, hasMarker, inWindow, k1, k2, k3, k4, h1, h2, h3]
+  | code =>
+    obtain ⟨w, hi⟩ := isOk_iff.mp h
+    obtain ⟨hv, _, _, hcc, _⟩ := acceptCode_ok hi
+    obtain ⟨h1, h2, _, h4⟩ := codeChecks_ok hcc
+    simp [honourable, Consumer.purpose, hasMarker, inWindow, verifies_signed hv, h1, h2, h4]
+  | access =>
+    obtain ⟨u, hi⟩ := isOk_iff.mp h
+    obtain ⟨hv, _, h1, h2, _, _, _⟩ := acceptAccess_ok hi
+    simp [honourable, Consumer.purpose, hasMarker, inWindow, verifies_signed hv, h1, h2]
+
+end KM.Token
